@@ -719,4 +719,122 @@ def cRun (vals : List Addr) (s : CState) (ops : List COp) : CState := ops.foldl 
 
 def cInit : CState := { confirms := [], grants := fun _ _ => false, keys := fun _ => none }
 
+/-! ## Light-node licences and client records
+
+`x/paloma/keeper/msg_server.go` (`AddLightNodeClientLicense`, `RegisterLightNodeClient`,
+`AuthLightNodeClient`, `SetLegacyLightNodeClients`) and `x/paloma/keeper/keeper.go`
+(`CreateLightNodeClientLicense`, `CreateSaleLightNodeClientLicense`, `CreateLightNodeClientAccount`,
+`GetLegacyLightNodeClients`).  What the chain keeps for a light-node principal `B`: a pending
+LICENCE (bought for `B` while `B` has no account yet; the funds are C18) and a CLIENT RECORD
+(activation time, time of the last authentication), written when `B` registers its licence and
+when `B` authenticates.  `SetLegacyLightNodeClients` ignores its sender: it walks the allowances
+of the governance-configured light-node feegranter and gives every grantee that has NEITHER a
+client record NOR a pending licence a fresh record (the one-off migration of nodes that existed
+before records were kept).  Every client of the sale keeps the feegranter's allowance after it
+registered, so "grantee of the feegranter" does not mean "unregistered": the two skips are what
+keeps the migration — which anybody may trigger, at any time, again and again — away from the
+records the clients wrote themselves.  Times are naturals (block times). -/
+
+structure LRec where
+  activatedAt : Nat
+  lastAuthAt : Nat
+deriving Repr, DecidableEq
+
+inductive LAct where
+  /-- `MsgAddLightNodeClientLicense`: the creator pays a licence for `client` -/
+  | addLicence (client : Addr)
+  /-- `MsgRegisterLightNodeClient` -/
+  | register
+  /-- `MsgAuthLightNodeClient` -/
+  | auth
+  /-- `MsgSetLegacyLightNodeClients` -/
+  | setLegacy
+deriving Repr, DecidableEq
+
+structure LMsg where
+  signers : List Addr
+  creator : Addr
+  act : LAct
+
+structure LState where
+  /-- `lightNodeClientStore` -/
+  client : Addr → Option LRec
+  /-- `lightNodeClientLicenseStore`: a licence is pending -/
+  licence : Addr → Bool
+  /-- x/auth: the address has an account -/
+  account : Addr → Bool
+  grants : Addr → Addr → Bool
+
+/-- the decorator's check (same rule as `anteOk`) -/
+def lAnteOk (m : LMsg) (g : Addr → Addr → Bool) : Bool :=
+  m.signers.contains m.creator || m.signers.any (fun s => g m.creator s)
+
+/-- `GetLegacyLightNodeClients` followed by the `SetLightNodeClient` loop of the handler, `F` the
+    light-node feegranter: for every grantee — already registered: skip; a licence is pending:
+    skip; otherwise a record activated now. -/
+def lLegacy (F : Addr) (now : Nat) (s : LState) : Addr → Option LRec :=
+  fun x =>
+    if s.grants F x = false then s.client x
+    else if (s.client x).isSome = true then s.client x
+    else if s.licence x = true then s.client x
+    else some ⟨now, now⟩
+
+/-- the handlers at block time `now`; `none` = the handler errs.  (The licence amount / the
+    creator's balance are left out: C18.) -/
+def lHandle (F : Addr) (now : Nat) (s : LState) (m : LMsg) : Option LState :=
+  match m.act with
+  | .addLicence c =>
+    if s.licence c = true then none          -- ErrLicenseExists
+    else if s.account c = true then none     -- ErrAccountExists
+    else some { s with licence := setAt s.licence c true, account := setAt s.account c true }
+  | .register =>
+    if s.licence m.creator = true then
+      some { s with licence := setAt s.licence m.creator false,
+                    client := setAt s.client m.creator (some ⟨now, now⟩) }
+    else none                                -- ErrNoLicense
+  | .auth =>
+    match s.client m.creator with
+    | none => none
+    | some r => some { s with client := setAt s.client m.creator (some { r with lastAuthAt := now }) }
+  | .setLegacy => some { s with client := lLegacy F now s }
+
+def lAccepted (F : Addr) (now : Nat) (s : LState) (m : LMsg) : Bool :=
+  lAnteOk m s.grants && (lHandle F now s m).isSome
+
+/-- one delivered transaction carrying a light-node message -/
+def lDeliver (F : Addr) (now : Nat) (s : LState) (m : LMsg) : LState :=
+  if lAnteOk m s.grants = false then s
+  else match lHandle F now s m with
+    | none => s
+    | some s' => s'
+
+/-- `CreateSaleLightNodeClientLicense` (called for an ATTESTED light-node sale — the validators'
+    oracle votes, C02 — not by a transaction of one principal): a licence for `c` like
+    `addLicence`, then an allowance of the feegranter for `c`; an error leaves nothing behind. -/
+def lSale (F : Addr) (s : LState) (c : Addr) : LState :=
+  if s.licence c = true then s
+  else if s.account c = true then s
+  else { s with licence := setAt s.licence c true, account := setAt s.account c true,
+                grants := setGrant s.grants F c true }
+
+inductive LOp where
+  /-- x/feegrant `MsgGrantAllowance`, signed by the granter; creates the grantee's account -/
+  | grant (granter grantee : Addr)
+  | revoke (granter grantee : Addr)
+  | sale (client : Addr)
+  | msg (now : Nat) (m : LMsg)
+
+def lStep (F : Addr) (s : LState) : LOp → LState
+  | .grant a b => { s with grants := setGrant s.grants a b true, account := setAt s.account b true }
+  | .revoke a b => { s with grants := setGrant s.grants a b false }
+  | .sale c => lSale F s c
+  | .msg now m => lDeliver F now s m
+
+def lRun (F : Addr) (s : LState) (ops : List LOp) : LState := ops.foldl (lStep F) s
+
+/-- no records, no licences, no grants; `accounts` exist already -/
+def lInit (accounts : List Addr) : LState :=
+  { client := fun _ => none, licence := fun _ => false, account := fun x => accounts.contains x,
+    grants := fun _ _ => false }
+
 end Paloma.Auth
